@@ -284,6 +284,15 @@ def build():
             ("Hasher.dispatch/frozenset-is-order-normalised", frozenset in table and table.get(frozenset) in methods,
              "dispatch[frozenset] -> %s (absent: falls back to save_reduce with list(obj) in iteration order)" % table.get(frozenset)),
         ]
+        # classes are values too (an argument like (int, type(None)), typing.Optional[int], int | None): pickle's own handler for `type`
+        # (Pickler.save_type) reduces the three classes that cannot be imported by name - type(None), type(NotImplemented), type(...) - to
+        # type(<singleton>) before it falls back to save_global.  A replacement handler must keep that, or such arguments cannot be hashed
+        # and the cached wrapper rejects calls the plain function accepts (C06).
+        th = table.get(type)
+        tnode = next((n for n in cls.body if isinstance(n, ast.FunctionDef) and n.name == th), None)
+        keeps = th is None or (tnode is not None and any(isinstance(c, ast.Call) and ast.unparse(c.func) in ("Pickler.save_type", "super().save_type") for c in ast.walk(tnode)))
+        out.append(("Hasher.dispatch/classes-without-a-global-name-are-accepted", keeps,
+                    "dispatch[type] -> %s: type(None), type(NotImplemented) and type(...) are not reachable as builtins.<name>; the handler must defer to Pickler.save_type for them" % th))
         # (the value types of the property's universe; function-like types legitimately share save_global, which pickles by qualified name)
         vtable = {t: h for t, h in table.items() if t in (set, frozenset, dict, list, tuple, str, bytes, int, float, bool, type(None))}
         out_discr = [
